@@ -8,6 +8,8 @@ CLAIMED = {
              note="float64 modelled as exact reals; NumPy primitive model of symgem/core.py (self-tested differentially each run); sparse Jacobians and string expressions outside."),
  "C01": dict(text="For all bounds (symbolic l<u / l==u / infinite), all user functions and Jacobians (uninterpreted symbols), all request points and all value/Jacobian interleavings within the bound (n<=2-3, m<=2, histories of 2-3 requests), returned values/Jacobians, database keys/values and memoization are as stated, for every preprocessing configuration.", ref="DESIGN.md 3/C01",
              note="float64 as exact reals; hash stub (all symbolic keys collide, lookups decided by the real __eq__); bounds injected into Variable.__dict__ assuming lb<=ub; integer variables with concrete bounds; sparse Jacobians, complex step and NaN outside."),
+ "C14": dict(text="PARTIAL (library-independent pipeline only): for every unit-sample matrix in [0,1]^{S x d} (symbolic, S<=2-3, d<=3) and all symbolic float bounds / listed integer bounds, the real compute_doe/_pre_run pipeline returns S samples inside the bounds, integral on integer variables, equal to the (rounded) design-space image of the unit samples in variable order, and restores the integer-normalization switch. The sampling algorithms themselves (SciPy/OpenTURNS/pyDOE, seeds, counts) are NOT covered: a change confined to them is not detected.", ref="DESIGN.md 3/C14",
+             note="unit sampler replaced by a contract stub (arbitrary matrix in the unit cube); float64 as reals; bounds injected into Variable.__dict__; tie-breaking rule of the rounding left unspecified (nearest integer)."),
 }
 NA = {
  "C07": "JacobianAssembly/CoupledSystem go through scipy.sparse, SuperLU and Krylov solvers: no symbolic value survives csr_matrix(); encoding would verify a model of scipy, not the code (DESIGN.md C07).",
